@@ -135,7 +135,10 @@ def load_linter_config(
         config = load_linter_config(context, "srp", SRPConfig)
     """
     metadata = get_metadata(context)
-    config_dict = metadata.get(config_key, {})
+    config_dict = metadata.get(config_key)
+    if config_dict is None:
+        # Top-level keys are normalized to underscores when a config file is loaded
+        config_dict = metadata.get(config_key.replace("-", "_"), {})
 
     if not isinstance(config_dict, dict):
         return config_class()
